@@ -39,7 +39,7 @@ PROBES = ["remove_head_then_insert_before_tail", "reorder_the_only_element",
           "reorder_head_tail_adjacent", "delete_then_reinsert_in_other_case",
           "copy_then_diverge", "failing_op_keyerror", "failing_op_valueerror_self_reorder",
           "failing_op_invalid_value", "gc_step", "reparsed_handle", "sort_custom_key",
-          "clear_then_reuse"]
+          "clear_then_reuse", "step_without_observation", "sort_key_with_ties"]
 
 NAMES = [["Package", "package", "PACKAGE"], ["Version", "version", "VERSION"],
          ["Depends", "depends", "DePeNdS"], ["X-A", "x-a", "X-a"], ["Zeta", "zeta", "ZETA"],
@@ -50,7 +50,11 @@ BADVALUES = ["ends\n", "blank\n\n line", "nospace\nline2"]
 SORTKEYS = {"len": lambda x: (len(x), x.lower()),
             "rev": lambda x: x.lower()[::-1],
             "neg": lambda x: tuple(-ord(c) for c in x.lower()),
-            "orig": lambda x: str(x)}      # the key function sees the preserved spelling
+            "orig": lambda x: str(x),      # the key function sees the preserved spelling
+            # keys that rank several fields equal: sorted() is stable, ties keep their order
+            "lenonly": lambda x: len(x),
+            "first": lambda x: x.lower()[:1] in "pvx",
+            "const": lambda x: 0}
 MUT = ("set", "del", "pop", "setdefault", "clear", "order_first", "order_last", "order_before",
        "order_after", "sort", "update")
 
@@ -82,9 +86,12 @@ def generate(seed, run, tier):
          "update": rs.choice([0, 1]), "badset": rs.choice([0, 1])}
     kinds = [k for k, v in w.items() for _ in range(v)] or ["set"]
     steps = []
+    # looking at a mapping is itself a sequence of calls on it: how often the clients look is
+    # part of the schedule (operation results are always checked; everything is read at the end)
+    observe_rate = rs.choice([1.0, 1.0, 0.5, 0.15, 0.0])
     for _ in range(rs.choice([5, 15, 30, 60])):
         k = rq.choice(kinds)
-        st = {"h": rq.randrange(4), "op": k}
+        st = {"h": rq.randrange(4), "op": k, "observe": rq.random() < observe_rate}
         if k in ("set", "setdefault"):
             st["k"], st["v"] = _key(rq), rq.choice(VALUES)
         elif k == "badset":
@@ -95,7 +102,7 @@ def generate(seed, run, tier):
         elif k in ("order_before", "order_after"):
             st["k"], st["ref"] = _key(rq), _key(rq)
         elif k == "sort":
-            st["key"] = rq.choice([None, None, "len", "rev", "neg", "orig"])
+            st["key"] = rq.choice([None, None, "len", "rev", "neg", "orig", "lenonly", "first", "const"])
         elif k == "update":
             st["items"] = [[_key(rq), rq.choice(VALUES)] for _ in range(rq.randint(1, 3))]
         steps.append(st)
@@ -344,6 +351,8 @@ def execute(case):
                         f = SORTKEYS[keyname]
                         m.rows.sort(key=lambda r: f(r[1]))
                         out.probe("sort_custom_key")
+                        if len(set(f(r[1]) for r in m.rows)) < len(m.rows):
+                            out.probe("sort_key_with_ties")
                         call = lambda: d.sort_fields(key=f)
                 else:
                     continue
@@ -380,9 +389,14 @@ def execute(case):
                     out.probe("copy_then_diverge")
             out.steps += 1
             prev_op = op
-            for hi in range(len(sut)):
-                _check_handle(sut[hi], model[hi], hi, si, op)
+            if st.get("observe", True):
+                for hi in range(len(sut)):
+                    _check_handle(sut[hi], model[hi], hi, si, op)
+            else:
+                out.probe("step_without_observation")
             out.states.add(stable_hash([m.rows for m in model]))
+        for hi in range(len(sut)):
+            _check_handle(sut[hi], model[hi], hi, len(case["trace"]), "end")
     finally:
         if gc_was:
             gc.enable()
